@@ -1475,13 +1475,15 @@ type bsiGroup struct {
 // In order to make this work, we effectively need to change the operator to LTE.
 // Executor.executeBSIGroupRangeShard() takes this into account and returns
 // `frag.FieldNotNull(bsig.BitDepth())` in such instances.
+// Likewise a GT/GTE value below the bit depth minimum yields a baseValue of 0;
+// the executor returns all not-null columns for it.
 func (b *bsiGroup) baseValue(op pql.Token, value int64) (baseValue int64, outOfRange bool) {
 	min, max := b.bitDepthMin(), b.bitDepthMax()
 
 	if op == pql.GT || op == pql.GTE {
 		if value > max {
 			return baseValue, true
-		} else if value > min {
+		} else if value >= min {
 			baseValue = int64(value - b.Base)
 		}
 	} else if op == pql.LT || op == pql.LTE {
